@@ -122,6 +122,7 @@ func fdecSrcCase(rr *h.Rand, p *party, file []byte, armored bool, truth []byte, 
 }
 
 func runC12(cx *ctx) {
+	c12IOCases(cx)
 	armorTrailCases(cx, "c12-", true, false)
 	r := cx.rng
 	// whole files through age.Decrypt under every kind of source, valid and damaged, binary and armored
